@@ -14,7 +14,7 @@ RULE = ("(foreground, alpha, background) triples: alpha in {0, 1, 0.5, 0.001, 0.
         "8-bit value, alpha=0 -> the background exactly; is_readable equals the WCAG label of that composite; make_readable (3% of cases) "
         "obeys the C01/C02 relations on the composite. Non-trivial = 0 < alpha < 1 and background not white; distinct = (fg,alpha,bg,spelling).")
 ASSUMPTIONS = ["oracles csscolor (exact blend on rationals) and wcag", "bound 1.5 is the property's own (0.5 rounding + <1 truncation in the hsla path)"]
-MUST_OBSERVE = {"any": ["composite_judged", "label_judged", "fix_judged", "kind:rgba", "kind:hsla", "kind:rgba_tuple", "kind:rgba_list"]}
+MUST_OBSERVE = {"any": ["composite_judged", "label_judged", "fix_judged", "kind:rgba", "kind:hsla", "kind:rgba_tuple", "kind:rgba_list", "kind:rgb4", "kind:rgbslash", "kind:informal4"]}
 BLEND_TOL = 1.5 + 1e-6
 SIZES = {"quick": 12000, "thorough": 125000}
 ALPHAS = ["0", "1", "0.5", "0.001", "0.999", "0.9999999999999999", "1.0", "0.0", "0.25", "0.1"]
@@ -79,6 +79,13 @@ def work(shard, rec):
         a = rnd.choice(ALPHAS) if rnd.random() < 0.45 else "%.*f" % (rnd.randrange(1, 7), rnd.random())
         kind = SP.TRANSLUCENT_KINDS[i % 4]
         text = SP.spell_translucent(fg, a, kind)
+        if i % 6 == 5:
+            # other spellings the library accepts for translucent text: rgb() carrying an alpha (CSS Color 4 alias forms) and
+            # the informal list; a small fixed pool so that the same string meets many backgrounds in one process
+            fg = [(0, 0, 0), (255, 255, 255), (200, 30, 30), (20, 90, 200)][(i // 6) % 4]
+            a = ["0.5", "0.7", "0.25"][(i // 24) % 3]
+            kind = ["rgb4", "rgbslash", "informal4"][(i // 6) % 3]
+            text = {"rgb4": "rgb(%d, %d, %d, %s)", "rgbslash": "rgb(%d %d %d / %s)", "informal4": "%d, %d, %d, %s"}[kind] % (fg + (a,))
         if text is None:
             continue
         # background spelling; sometimes itself translucent
